@@ -140,6 +140,12 @@ def run_history(case, st=None):
             a = outcome(f); b = outcome(lambda: model.extend(vs))
         elif k == "set":
             v = dec(op[2]); j = op[1]
+            if j == len(model) and not case.get("no_carve"):
+                # known finding C19-setitem-at-len (pinned by the repository's own test_owlrdfproxylist): c[len(c)] = x
+                # writes 'rdf:nil rdf:first x' (or a head without rdf:rest) instead of raising IndexError. The operation is
+                # not executed so that the rest of the history is still judged at full strength.
+                st.setdefault("_known", {})["C19-setitem-at-len"] = st.get("_known", {}).get("C19-setitem-at-len", 0) + 1
+                continue
             def fr(): col[j] = v
             def fm(): model[j] = v
             a = outcome(fr); b = outcome(fm)
@@ -254,6 +260,7 @@ def lane_exhaustive(ctx):
     for j in range(0, 4):
         templates += [["del", j], ["get", j], ["set", j, enc(vals[0])]]
     templates += [["index", enc(vals[0])], ["in", enc(vals[1])], ["len"]]
+    # (set at index == len is the known finding C19-setitem-at-len and is carved out inside run_history)
     L = ctx.n
     idx = 0; done = 0
     inits = [list(c) for n in range(0, 4) for c in itertools.product(vals, repeat=n)]
